@@ -5,6 +5,7 @@ cd "$(dirname "$0")"
 export CARGO_NET_OFFLINE=true
 unset RUSTFLAGS RUSTUP_TOOLCHAIN
 python3 tools/gen_classes.py > harness/src/spec/classes_gen.rs.tmp && mv harness/src/spec/classes_gen.rs.tmp harness/src/spec/classes_gen.rs
+python3 tools/gen_consts.py > harness/src/spec/consts_gen.rs.tmp && mv harness/src/spec/consts_gen.rs.tmp harness/src/spec/consts_gen.rs
 python3 tools/gen_registry.py
 cp /repo/Cargo.lock harness/Cargo.lock 2>/dev/null || true
 cp /repo/Cargo.lock replay/Cargo.lock 2>/dev/null || true
